@@ -77,6 +77,8 @@ def run(s):
             r1.detail = "%s: solution space of the %d captured relation rows = invariant subspace (dimension %d)" % (system, len(R), 21 - rR)
             return r1
         s.oblige("C08.relations_equal_invariants[%s]" % system, ob, [F, "cij/data/constraints/" + system])
+    if s.__dict__.get("relations_only"):          # another property registers only the relation obligations (core.SubSession): the rest of this check is not its business
+        return
     s.canary("C08.canary.trigonal7_without_c66_relation", lambda: canary_rel(alg, cs, dot, to_z3, tier))
 
     # ---------------- 2. captured system: unit rows for supplied columns (case-insensitive), rhs = column, relations rhs 0
@@ -181,6 +183,10 @@ def run(s):
 
     # ---------------- apply_symetry_on_elast_data stores exactly the returned columns under canonical keys
     s.oblige("C08.apply_symmetry_on_table", lambda: apply_table(), ["elast_dat.apply_symetry_on_elast_data"])
+    # ---------------- the calculation route: Calculator hands the table and the configured symmetry settings to apply_symetry_on_elast_data for every system other than
+    # none / triclinic, whatever the switches say (they govern refusals, not the filling), and the packaged defaults are fill_cij's own defaults
+    s.oblige("C08.calculator_applies_symmetry(call site)", calculator_callsite, ["calculator.Calculator._apply_elastic_constants_symmetry"], kind="finite")
+    s.oblige("C08.packaged_symmetry_defaults_are_fill_defaults", lambda: packaged_defaults(fill), ["cij/data/default/settings.yaml", "fill.fill_cij"], kind="finite")
     # ---------------- bounded: fill returns the invariant tensor on consistent sufficient tables (real numerics)
     bounded_fill(s, fill)
     s.min_obligations = 13
@@ -281,6 +287,58 @@ def apply_table():
             return core.refuted("callsite", "volume row %d stores %r" % (i, dict(v.static_elastic_modulus)), witness_id="apply-store", replay={"reproduced": True})
     return core.proved("callsite", "apply_symetry_on_elast_data passes the settings unchanged, builds cIJ columns from canonical keys and stores exactly "
                                    "the returned columns for every volume row")
+
+
+def calculator_callsite():
+    import itertools
+    cal = importlib.import_module("cij.core.calculator")
+    from contracts.nonshear_env import patched
+    import inspect
+    real_sig = inspect.signature(cal.apply_symetry_on_elast_data)
+    n = 0
+    for system in [None, "triclinic"] + [x for x in SYSTEMS if x != "triclinic"]:
+        for ig_res, ig_rank in itertools.product((False, True), repeat=2):
+            sym = {"ignore_residuals": ig_res, "ignore_rank": ig_rank, "drop_atol": 1e-8, "residual_atol": 0.1}
+            if system is not None:
+                sym["system"] = system
+            me = types.SimpleNamespace(config={"elast": {"settings": {"symmetry": dict(sym)}}}, elast_data=object())
+            calls = []
+            with patched(cal, apply_symetry_on_elast_data=lambda *a, **k: calls.append((a, k))):
+                cal.Calculator._apply_elastic_constants_symmetry(me)
+            n += 1
+            if system in (None, "triclinic"):
+                if calls and system is None:
+                    return core.refuted("callsite", "without a crystal system the table is handed to the symmetry filling", witness_id="calc-sym-none", replay={"reproduced": True})
+                continue
+            ok = False
+            if len(calls) == 1:
+                try:          # however the call is spelled: what each parameter of the real function receives
+                    got = list(real_sig.bind(*calls[0][0], **calls[0][1]).arguments.values())
+                    ok = len(got) == 2 and got[0] is me.elast_data and dict(got[1]) == sym
+                except TypeError:
+                    ok = False
+            if not ok:
+                return core.refuted("callsite", "system %s, ignore_residuals=%s, ignore_rank=%s: apply_symetry_on_elast_data is called %d time(s)%s" % (
+                    system, ig_res, ig_rank, len(calls), (" with %r" % (calls[0],)) if calls else " (the table is used as read: dependent components are never generated)"),
+                    witness_id="calc-sym:%s:%s:%s" % (system, ig_res, ig_rank), replay={"reproduced": True, "settings": sym})
+    return core.proved("callsite", "%d (system, switches) combinations: exactly one call with the calculator's own table and the configured settings for every system but none / triclinic" % n)
+
+
+def packaged_defaults(fill):
+    import inspect, yaml
+    with open(os.path.join(core.REPO, "cij/data/default/settings.yaml")) as fp:
+        sym = yaml.safe_load(fp)["elast"]["settings"]["symmetry"]
+    sig = inspect.signature(fill.fill_cij)
+    for name, par in sig.parameters.items():
+        if par.default is inspect.Parameter.empty or name == "system":
+            continue
+        if name in sym and not (sym[name] == par.default and type(sym[name]) is type(par.default) or (isinstance(par.default, float) and float(sym[name]) == par.default)):
+            return core.refuted("finite", "packaged default %s = %r, fill_cij's own default is %r: a calculation that does not spell the setting out fills (drops / refuses) differently from "
+                                          "fill_cij and the fill command" % (name, sym[name], par.default), witness_id="default:%s" % name, replay={"reproduced": True})
+    extra = [k for k in sym if k not in sig.parameters]
+    if extra:
+        return core.refuted("finite", "packaged symmetry settings %s are not parameters of fill_cij" % extra, witness_id="default-extra", replay={"reproduced": True})
+    return core.proved("finite", "every packaged symmetry default equals the default of the same fill_cij parameter")
 
 
 def bounded_fill(s, fill):
